@@ -437,3 +437,22 @@ Definition requested (t : tree) (f : form) (reqs : list request) : list path :=
   | _ => fold_left (fun acc r => let '(_, (pat, (o, x))) := r in
                       add_new acc (map (fun n => var_key n o x) (path_denotation t (Some (o, x)) pat))) reqs []
   end.
+
+(* ------------------------------------------------------------------------------------------ paths inside edges *)
+(* An edge whose EdgeTemplate has an extra input mapped to a node variable BY PATH in the edge attributes
+   ('ce/co/u_t': 'C/po/u'; the Kuramoto sin_edge feature), coupling m = u_s*u_t + u_s, target  u_t' = sum of w*m.
+   Impl: source, target and the path-mapped extra source are all resolved through the same maps as an output
+   (relabel for the backend vector, _vectorization_indices of the USER's path for the unit — _extract_sources_from_edge_dict).
+   Spec: the values of the variables the paths name. *)
+Section EdgeSources.
+  Variable V : Type.
+  Variables (vadd vmul : V -> V -> V) (vzero : V).
+  Definition pedge := (path * path * V * path)%type.     (* source var, target state var, weight, extra source var *)
+  Definition read_slot (L : layout) (row : list V) (v : path) : V :=
+    match pos L v 0 with Some k => nth k row vzero | None => vzero end.
+  Definition edge_deriv (rd : path -> V) (es : list pedge) (tv : path) : V :=
+    fold_right (fun (e : pedge) acc => let '(s, t, w, r) := e in
+                  if path_eqb t tv then vadd (vmul w (vadd (vmul (rd s) (rd r)) (rd s))) acc else acc) vzero es.
+  Definition edge_deriv_impl (L : layout) (row : list V) := edge_deriv (read_slot L row).
+  Definition edge_deriv_spec (val : path -> V) := edge_deriv val.
+End EdgeSources.
